@@ -169,92 +169,144 @@ def run(facts, cg):
         finding('R-RETRY', '-', 'floor', 'expected 2 retry re-arm sites (cannot decide)')
 
     # ---------------------------------------------------------------- R-SEEK-EACH (local reader)
+    # The chunk reader of module io_reader is a state machine over an enum-typed field.  Its states are told apart by what
+    # their arm of the dispatch does (starts a seek / waits for it / reads), not by their names.
+    n_se = 0
     for b in facts.bodies.values():
-        if not b.q.endswith('IoChunkReader::poll_chunk'):
+        if not b.id.startswith('bitar::archive_reader::io_reader::') or b.generated:
             continue
-        dom = b.dominators()
-        def state_stores(v):
-            out = []
-            for (bi, si, st) in stores(b, 'state'):
-                term = simplify(T.of_rvalue(b, st['rv'], 0))
-                if isinstance(term, tuple) and term[0] == 'agg' and term[1] == IOSTATE and term[2] == v:
-                    out.append((bi, si, st))
-            return out
         def call_blocks(suffix):
             return [(bi, t) for bi, t in b.calls() if 'q' in t['callee'] and t['callee']['q'].endswith(suffix)]
         seeks = call_blocks('AsyncSeek::start_seek')
         completes = call_blocks('AsyncSeek::poll_complete')
         reads = call_blocks('AsyncRead::poll_read')
+        if not (seeks and completes and reads):
+            continue
+        n_se += 1
+        dom = b.dominators()
+        # the state field: a field of a crate-local enum type that is stored in this body and dispatched on
+        st_stores = []          # (block, stmt, variant index)
+        for bi in b.live:
+            for st in b.blocks[bi]['stmts']:
+                if st['k'] == 'assign' and st['pl']['p'] and st['pl']['p'][-1]['k'] == 'field':
+                    term = simplify(T.of_rvalue(b, st['rv'], 0))
+                    if isinstance(term, tuple) and term[0] == 'agg' and term[1].startswith('bitar::archive_reader::io_reader::') and term[1] in facts.adts:
+                        names = [v_['n'] for v_ in facts.adts[term[1]]['variants']]
+                        if term[2] in names and len(names) > 1:
+                            st_stores.append((bi, st, names.index(term[2]), st['pl']['p'][-1].get('n')))
+        fields = {x[3] for x in st_stores}
         inst = {'rule': 'R-SEEK-EACH', 'function': b.q, 'start_seek': len(seeks), 'poll_complete': len(completes), 'poll_read': len(reads),
-                'to_Read': len(state_stores('Read')), 'to_PollSeek': len(state_stores('PollSeek')), 'to_Seek': len(state_stores('Seek'))}
+                'state_field': sorted(map(str, fields)), 'state_stores': len(st_stores)}
         instances.append(inst)
-        if not (seeks and completes and reads and state_stores('Read') and state_stores('PollSeek') and state_stores('Seek')):
+        if len(fields) != 1 or len(st_stores) < 3:
             finding('R-SEEK-EACH', b.q, 'anchor', 'seek / complete / read state machine not recognised (cannot decide)')
             continue
-        for sbi, si, st in state_stores('Read'):
+        sf = fields.pop()
+        # role of each variant = the call its dispatch arm leads to first
+        role_of = {}
+        for sbi in b.live:
+            sw = b.blocks[sbi]['term']
+            if sw['k'] != 'switch':
+                continue
+            cterm = simplify(T.of_operand(b, sw['op']))
+            if not (any(n[0] == 'discr' for n in walk(cterm)) and has_field(cterm, sf)):
+                continue
+            for v, tgt in zip(sw['vals'], sw['targets']):
+                hit = [role for role, sites in (('seek', seeks), ('wait', completes), ('read', reads))
+                       if any(tgt == cbi or tgt in dom.get(cbi, ()) for cbi, _ in sites)]
+                if len(hit) == 1:
+                    role_of.setdefault(v, hit[0])
+        inst['variant_roles'] = {str(k): v for k, v in role_of.items()}
+        by_role = {r: [x for x in st_stores if role_of.get(x[2]) == r] for r in ('seek', 'wait', 'read')}
+        if not all(by_role.values()):
+            finding('R-SEEK-EACH', b.q, 'anchor', 'seek / complete / read state machine not recognised (cannot decide)')
+            continue
+        for sbi, st, v, _ in by_role['read']:
             if not any(cbi in dom.get(sbi, ()) for cbi, _ in completes):
-                finding('R-SEEK-EACH', b.q, 'read-without-completed-seek', 'the reader can enter the Read state without a completed seek')
-        for sbi, si, st in state_stores('PollSeek'):
+                finding('R-SEEK-EACH', b.q, 'read-without-completed-seek', 'the reader can enter the reading state without a completed seek')
+        for sbi, st, v, _ in by_role['wait']:
             if not any(cbi in dom.get(sbi, ()) for cbi, _ in seeks):
                 finding('R-SEEK-EACH', b.q, 'pollseek-without-seek', 'the reader can wait for a seek that was never started')
         for cbi, ct in seeks:
             term = simplify(T.of_operand(b, ct['args'][1]))
             if not has_field(term, 'offset'):
                 finding('R-SEEK-EACH', b.q, 'seek-target', 'start_seek does not go to the current chunk\'s offset (%s)' % show(term)[:100])
-        # after chunk_index advances the state returns to Seek on every path to the exit
-        incs = [(bi, si, st) for (bi, si, st) in stores(b, 'chunk_index')]
-        seek_blocks = {bi for bi, _, _ in state_stores('Seek')}
-        for ibi, si, st in incs:
-            class Step(Rule):
-                init = False
-                def __init__(s):
-                    s.bad = []
-                def on_stmt(s, b_, bi, st_, state):
-                    return state
-                def on_term(s, b_, bi, t, state):
-                    return state
-            # path check: from ibi, every path to a return passes a Seek store
-            if not _all_paths_hit(b, ibi, seek_blocks):
-                finding('R-SEEK-EACH', b.q, 'no-reseek-after-chunk', 'after a chunk is delivered the next chunk can be read without seeking to its offset')
-        for rbi, rt in reads:
-            pass
-    if not any(i['rule'] == 'R-SEEK-EACH' for i in instances):
-        finding('R-SEEK-EACH', '-', 'floor', 'IoChunkReader::poll_chunk not found (cannot decide)')
+        # after the chunk counter advances the state returns to "seek" on every path to the exit
+        usize_fields = set(facts.fields_by_role('bitar::archive_reader::io_reader::IoChunkReader').get('usize') or [])
+        seek_blocks = {bi for bi, _, _, _ in by_role['seek']}
+        for bi in b.live:
+            for st in b.blocks[bi]['stmts']:
+                if st['k'] == 'assign' and st['pl']['p'] and st['pl']['p'][-1]['k'] == 'field' and st['pl']['p'][-1].get('n') in usize_fields:
+                    term = simplify(T.of_rvalue(b, st['rv'], 0))
+                    is_inc = term[0] == 'binop' and term[1] == 'Add' and ('const', 1) in (term[2], term[3]) and has_field(term, st['pl']['p'][-1].get('n'))
+                    if is_inc and has_field(simplify(T.of_operand(b, seeks[0][1]['args'][1])), st['pl']['p'][-1].get('n')):
+                        if not _all_paths_hit(b, bi, seek_blocks):
+                            finding('R-SEEK-EACH', b.q, 'no-reseek-after-chunk', 'after a chunk is delivered the next chunk can be read without seeking to its offset')
+    if n_se < 1:
+        finding('R-SEEK-EACH', '-', 'floor', 'the local chunk reader (start_seek / poll_complete / poll_read in module io_reader) was not found (cannot decide)')
 
     # ---------------------------------------------------------------- R-RUNS (http reader)
+    # request geometry and run length, found by role: the request is built by HttpRangeRequest::new (or its aggregate), the
+    # run length is a count over windows(2) of the remaining chunks
+    n_req = n_adj = 0
     for b in facts.bodies.values():
-        if b.q.endswith('ChunkReader::poll_read') and 'http_reader' in b.q:
-            sts = stores(b, 'num_adjacent_reads')
-            ok = any(has_call(simplify(T.of_rvalue(b, st['rv'], 0)), 'adjacent_reads') for _, _, st in sts)
-            news = [(bi, t) for bi, t in b.calls() if 'q' in t['callee'] and callee_q(t).endswith('HttpRangeRequest::new')]
-            inst = {'rule': 'R-RUNS', 'function': b.q, 'run_length_from_adjacency': ok, 'request_constructions': len(news)}
-            if news:
-                sz = simplify(T.of_operand(b, news[0][1]['args'][2]))
-                off = simplify(T.of_operand(b, news[0][1]['args'][1]))
-                inst['size_term'] = show(sz)[:120]
-                inst['offset_term'] = show(off)[:80]
-                if not (has_call(sz, 'ChunkOffset::end') and has_field(sz, 'offset')):
-                    finding('R-RUNS', b.q, 'request-size', 'the size of a range request is not (end of last adjacent chunk - offset of first)')
-                if not has_field(off, 'offset'):
-                    finding('R-RUNS', b.q, 'request-offset', 'a range request does not start at the first chunk\'s offset')
+        if not b.id.startswith('bitar::archive_reader::http_reader::') or b.generated:
+            continue
+        news = [(bi, t) for bi, t in b.calls() if 'q' in t['callee'] and callee_q(t).endswith('HttpRangeRequest::new')]
+        if news and ' as bitar::archive_reader::ArchiveReader>::read_at' not in b.q and not (facts.original.get(b.raw.get('parent') or '') is not None and
+                                                                                             facts.original[b.raw['parent']].q.endswith('ArchiveReader>::read_at')):
+            n_req += 1
+            sz = simplify(T.of_operand(b, news[0][1]['args'][2]))
+            off = simplify(T.of_operand(b, news[0][1]['args'][1]))
+            inst = {'rule': 'R-RUNS', 'function': b.q, 'request_constructions': len(news), 'size_term': show(sz)[:120], 'offset_term': show(off)[:80]}
+            if not (has_call(sz, 'ChunkOffset::end') and has_field(sz, 'offset')):
+                finding('R-RUNS', b.q, 'request-size', 'the size of a range request is not (end of last adjacent chunk - offset of first)')
+            if not has_field(off, 'offset'):
+                finding('R-RUNS', b.q, 'request-offset', 'a range request does not start at the first chunk\'s offset')
+            # the index of the last chunk of the run comes from a count of adjacent chunks
+            ok = _calls_like(sz, 'adjacent') or (has_call(sz, '::count') and has_call(sz, 'windows'))
+            if not ok:
+                usz = set(facts.fields_by_role('bitar::archive_reader::http_reader::ChunkReader').get('usize') or [])
+                for f_ in usz:
+                    if True:
+                        for _, _, st in stores(b, f_):
+                            vt = simplify(T.of_rvalue(b, st['rv'], 0))
+                            if _calls_like(vt, 'adjacent') or (has_call(vt, '::count') and (has_call(vt, '::windows') or has_call(vt, '::take_while'))):
+                                ok = True
+            inst['run_length_from_adjacency'] = ok
             instances.append(inst)
             if not ok:
-                finding('R-RUNS', b.q, 'run-length', 'the number of chunks covered by a request is not derived from adjacent_reads()')
-            # early end => error: the None arm of the request poll
-        if b.q.endswith('adjacent_reads::{closure#0}') or (b.raw.get('parent', '') or '').endswith('adjacent_reads') :
+                finding('R-RUNS', b.q, 'run-length', 'the number of chunks covered by a request is not derived from a count of adjacent chunks')
+        # the adjacency predicate: a closure applied to windows(2) of chunk offsets
+        par = facts.original.get(b.raw.get('parent') or '')
+        if b.raw['kind'] == 'Closure' and not b.raw.get('coroutine') and par is not None and \
+                any('q' in t['callee'] and callee_q(t).endswith('::windows') for _, t in (facts.bodies.get(par.id) or par).calls()):
             cmps = [(bi, st) for bi in b.live for st in b.blocks[bi]['stmts'] if st['k'] == 'assign' and st['rv']['k'] == 'binop' and st['rv']['op'] in ('Eq', 'Ne', 'Le', 'Lt', 'Ge', 'Gt')]
+            if not cmps:
+                continue
+            n_adj += 1
             good = False
             for bi, st in cmps:
                 ta = simplify(T.of_operand(b, st['rv']['a']))
                 tb = simplify(T.of_operand(b, st['rv']['b']))
-                if st['rv']['op'] == 'Eq' and has_field(ta, 'offset') and has_field(ta, 'size') and has_field(tb, 'offset') and not has_field(tb, 'size'):
-                    good = True
+                for x, y in ((ta, tb), (tb, ta)):
+                    if st['rv']['op'] == 'Eq' and has_field(x, 'offset') and has_field(x, 'size') and has_field(y, 'offset') and not has_field(y, 'size'):
+                        good = True
             instances.append({'rule': 'R-RUNS(adjacency)', 'function': b.q, 'comparisons': [show(simplify(T.of_rvalue(b, st['rv'], 0)))[:120] for _, st in cmps]})
             if not good:
                 finding('R-RUNS', b.q, 'adjacency-predicate', 'adjacency is not `prev.offset + prev.size == next.offset`')
-    if not any(i['rule'] == 'R-RUNS' for i in instances) or not any(i['rule'] == 'R-RUNS(adjacency)' for i in instances):
-        finding('R-RUNS', '-', 'floor', 'http ChunkReader::poll_read / adjacent_reads not found (cannot decide)')
+    if n_req < 1 or n_adj < 1:
+        finding('R-RUNS', '-', 'floor', 'the construction of the range request / the adjacency predicate of the http chunk reader were not found (cannot decide)')
     return instances, findings
+
+
+def _calls_like(t, part):
+    return any(n[0] == 'call' and part in n[1].split('::')[-1] for n in walk(t))
+
+
+def _first_before(b, dom, tgt, other, mine):
+    """is call block `other` reached from `tgt` before any of `mine` (i.e. does another role's call come first in this arm)"""
+    return any(other in dom.get(m, ()) for m in mine if tgt in dom.get(m, ()) or tgt == m) is False and False
 
 
 def _buffer_root(b, op, depth=0):
